@@ -61,10 +61,33 @@ pub fn run(opts: &Opts) -> i32 {
         let stdin: &[u8] = b"7\nhello world\n42\n";
         let argv = vec!["one".to_string(), "two".to_string()];
         let (class, case) = machine_case(session, &path, None, stdin, &argv, fuel);
-        (path, class, case)
+        // further worlds (blank lines, CRLF, a last line without terminator, no input at all):
+        // kept only where the run depends on its input, i.e. answers differently from the first
+        let mut more = Vec::new();
+        if let Some((_, first)) = &case {
+            for world in [&b"alpha\n\nbeta\r\n\r\n 12 \nlast"[..], &b"\n"[..], &b""[..]] {
+                if let (_, Some((req, ans))) = machine_case(session, &path, None, world, &argv, fuel) {
+                    if &ans != first && !more.iter().any(|(_, a): &(String, String)| a == &ans) {
+                        more.push((req, ans));
+                    }
+                }
+            }
+        }
+        (path, class, case, more)
     });
     let mut executables: std::collections::HashSet<std::path::PathBuf> = Default::default();
-    for (path, class, case) in results {
+    for (path, class, case, more) in results {
+        for (req, ans) in more {
+            let end = ans.split(' ').next().unwrap_or("").to_string();
+            if end.starts_with("stuck:") || end.starts_with("panic:") {
+                sink.violation("c01-accepted-program-stuck", serde_json::json!({"file": path.display().to_string(), "end": end, "world": "alternative standard input"}));
+            }
+            if end != "fuel" {
+                sink.count("corpus_input_dependent_runs");
+                sink.case(&format!("# file {} (another standard input)", path.display()).replace(' ', "_").replacen("#_file_", "# file ", 1), "-");
+                sink.case(&req, &ans);
+            }
+        }
         sink.count(&format!("corpus_{}", class.split(':').next().unwrap_or("")));
         if let Some((req, ans)) = case {
             executables.insert(path.clone());
@@ -142,6 +165,44 @@ pub fn run(opts: &Opts) -> i32 {
                     sink.violation("c01-accepted-program-stuck", serde_json::json!({"probe": name, "end": end, "source": text}));
                 }
                 sink.case(&format!("# probe {name}"), &end);
+            }
+        }
+    }
+    // (1e) programs whose behaviour is decided by the host operations selecting a continuation
+    // (line / chunk / whole-input reads, end of input, blank lines, CRLF, bytes that are not
+    // UTF-8), each in several worlds, against the mirrored machine with the host model
+    {
+        let pre = pipeline::prelude();
+        let programs: [(&str, String); 5] = [
+            ("io-read-line-echo", format!("{pre}do reader <- ! (stdio/stdin);\ndo out <- ! (stdio/stdout);\n(\n  fix (loop : Thk (Int64 -> OS)) =>\n    fn (seen : Int64) =>\n      ! (io/read_line) reader\n        {{ fn code message => ! (process/exit) 100 }}\n        {{ ! (stdio/write_int) seen {{ ! (process/exit) seen }} }}\n        {{ fn line =>\n            ! (io/write_all) out line {{ fn code message => ! (process/exit) 101 }} {{\n              ! (stdio/write_line) \"|\" {{\n                do next <- ! (int64/add) seen 1;\n                ! loop next\n              }}\n            }}\n        }}\n) 0\n")),
+            ("io-read-chunks", format!("{pre}do reader <- ! (stdio/stdin);\ndo out <- ! (stdio/stdout);\nlet err = {{ fn (code : Int64) (message : String) => ! (process/exit) 100 }} in\n! (io/read) reader 3 err {{ fn a =>\n  ! (io/write_all) out a err {{ ! (stdio/write_line) \"|\" {{\n  ! (io/read) reader 2 err {{ fn b =>\n  ! (io/write_all) out b err {{ ! (stdio/write_line) \"|\" {{\n  ! (io/read_line) reader err {{ ! (process/exit) 7 }} {{ fn l =>\n  ! (io/write_all) out l err {{ ! (stdio/write_line) \"|\" {{\n  ! (io/read_all) reader err {{ fn c =>\n  ! (io/write_all) out c err {{ ! (process/exit) 0 }} }} }} }} }} }} }} }} }} }} }}\n")),
+            ("legacy-read-int-loop", format!("{pre}(\n  fix (loop : Thk (Int64 -> OS)) =>\n    fn (seen : Int64) =>\n      ! (stdio/read_int)\n        {{ ! (stdio/write_int) seen {{ ! (process/exit) seen }} }}\n        {{ fn n => ! (stdio/write_int) n {{ ! (stdio/write_line) \"|\" {{ do next <- ! (int64/add) seen 1; ! loop next }} }} }}\n) 0\n")),
+            ("legacy-read-lines-then-all", format!("{pre}! (stdio/read_line) {{ fn a => ! (stdio/write) a {{ ! (stdio/write_line) \"|\" {{\n! (stdio/read_line) {{ fn b => ! (stdio/write) b {{ ! (stdio/write_line) \"|\" {{\n! (stdio/read_all) {{ fn c => ! (stdio/write) c {{ ! (process/exit) 0 }} }} }} }} }} }} }} }}\n")),
+            ("mixed-legacy-and-reader", format!("{pre}do reader <- ! (stdio/stdin);\ndo out <- ! (stdio/stdout);\nlet err = {{ fn (code : Int64) (message : String) => ! (process/exit) 100 }} in\n! (stdio/read_line) {{ fn a => ! (stdio/write) a {{ ! (stdio/write_line) \"|\" {{\n! (io/read_line) reader err {{ ! (process/exit) 7 }} {{ fn l =>\n! (io/write_all) out l err {{ ! (stdio/write_line) \"|\" {{\n! (stdio/read_int) {{ ! (process/exit) 8 }} {{ fn n => ! (process/exit) n }} }} }} }} }} }} }}\n")),
+        ];
+        let worlds: [&[u8]; 10] = [
+            b"", b"\n", b"alpha\n\nbeta\n", b"\r\nx\n", b"a\r\n\r\nb", b"12\n-3\n\n+4\nz\n5\n", b"\xff\xfe\n\n\xc3\n", b"no newline",
+            b"\n\n\n", b"1\r\n22\r\n333",
+        ];
+        let mut session = CompilerSession::default();
+        for (name, text) in programs {
+            let path = opts.out.join(format!("host-{name}.zy"));
+            for world in worlds {
+                let (class, case) = machine_case(&mut session, &path, Some(&text), world, &[], fuel);
+                sink.count(&format!("host_program_{}", class.split(':').next().unwrap_or("")));
+                match case {
+                    | Some((req, ans)) => {
+                        let end = ans.split(' ').next().unwrap_or("").to_string();
+                        sink.count(&format!("host_program_end_{}", end.split(':').next().unwrap_or("")));
+                        sink.case(&format!("# host program {name} on {}", hex(world)), "-");
+                        sink.case(&req, &ans);
+                    }
+                    | None => {
+                        // these are written to be accepted: a rejection is a defect of the harness
+                        sink.violation("harness-host-program-rejected", serde_json::json!({"program": name, "class": class, "source": text}));
+                        break;
+                    }
+                }
             }
         }
     }
